@@ -193,10 +193,17 @@ def check(rep, tier, seed):
     n, n_ops = (60, 80) if tier == "quick" else (1200, 200)
     cases = [gen_case(seed, i, ENGINES[i % len(ENGINES)], n_ops) for i in range(n)]
     cases += [snapshot_case(seed, i, ENGINES[i % 3]) for i in range(3 if tier == "quick" else 30)]
+    # atomicity beyond the engine's per-transaction size limit (Badger: ~104857 entries): one batch of n puts whose
+    # last operation fails its condition must leave nothing behind
+    for eng, n_big in [("memkv", 2000), ("badger", 120000), ("metrics-badger", 120000)] + ([("tikv", 3000)] if tier != "quick" else []):
+        cases.append(core.Case("engine", ["cfg engine=%s" % eng, "batch put:6b2f30:6f6c64", "bigbatch %d 6b2f" % n_big, "get 6b2f30", "dump"],
+                               {"engine": eng, "snapshot": True, "big": True}))
     core.run_cases(cases)
     for c in cases:
         rep.count_case(c)
         hit = None if c.meta.get("snapshot") else oracle(c)
+        if c.meta.get("big") and c.diff() is not None:
+            hit = ("a batch that reported an error left part of itself behind: %s (all-or-nothing: %s)" % (c.impl[c.diff()], c.model[c.diff()]), "batch-not-atomic")
         if c.meta.get("snapshot") and c.diff() is not None:
             d = c.diff()
             if c.lines[d].startswith("iterw"):
